@@ -7,3 +7,11 @@ FAMILY = dict(
               "chat-object / string / null descriptions, 0-12 sample players, i32/u32 boundary numbers, host name and protocol "
               "version settings, optional trailing pong"),
 )
+
+# ---- C10: handshake + status request + ping + read is one retried unit
+from props import mc_c10
+
+c10_eligible = mc_c10.eligible
+c10_units = lambda valid: [0]
+c10_build = mc_c10.build(FAMILY, 3)
+c10_attempts = mc_c10.attempts
